@@ -395,17 +395,16 @@ def bce_loss_backward(grad: np.ndarray, y_pred: np.ndarray, y_true: np.ndarray) 
 
 
 def bce_with_logits_loss_forward(y_pred: np.ndarray, y_true: np.ndarray) -> np.ndarray:
-    tn = -relu_forward(y_pred)
-    loss = (1-y_true) * y_pred + tn + np.log(np.exp(-tn) + np.exp((-y_pred-tn)))
+    # log-sum-exp trick with max_val = max(-x, 0): no exponential of a positive number is taken
+    max_val = relu_forward(-y_pred)
+    loss = (1-y_true) * y_pred + max_val + np.log(np.exp(-max_val) + np.exp((-y_pred-max_val)))
     return loss
 
 def bce_with_logits_loss_backward(grad: np.ndarray, y_pred: np.ndarray, y_true: np.ndarray) -> np.ndarray:
-    tn = -relu_forward(y_pred)
-    dtn = np.where(tn == 0, 0, -1)
-    div1 = -dtn*np.exp(-tn) + (-1-dtn)*np.exp((-y_pred-tn))
-    div2 = np.exp(-tn) + np.exp((-y_pred-tn))
-    loss_grad = (1 - y_true) + dtn + (div1/(div2 + epsilon))
-    return grad * loss_grad
+    # d/dx = sigmoid(x) - y, with sigmoid evaluated from exp(-|x|) only
+    e = np.exp(-np.abs(y_pred))
+    sigmoid = np.where(y_pred >= 0, 1 / (1 + e), e / (1 + e))
+    return grad * (sigmoid - y_true)
 
 
 def cross_entropy_loss_forward(y_pred: np.ndarray, y_true: np.ndarray) -> np.ndarray:
